@@ -138,6 +138,15 @@ def oracle(run: runner.Run, oc: Outcome) -> None:
                 if len(oks) > 1 and not is_parent:
                     excuse = changes.fault_between(run, oks[0].seq0, oks[-1].seq0, min_echo_delay=ctimeout * 0.9)
                     if excuse is None:
+                        # The echo of an own write of this object was once delayed beyond the consistency timeout:
+                        # the operator then acted on a view without its own records (by design), and the write of
+                        # that blind step can leave the records of two cycles mixed for the steps that follow.
+                        if any(e[2] == 'fault-echo' and e[4] == oks[-1].name and e[7] - e[6] >= ctimeout * 0.9
+                               and e[6] <= oks[-1].t0 for e in run.sim.trace):
+                            excuse = 'blind-echo'
+                            oc.probes['probe.double-success-after-blind-step'] = \
+                                oc.probes.get('probe.double-success-after-blind-step', 0) + 1
+                    if excuse is None:
                         # the step of an earlier success did not complete (stopped/killed/failed mid-way)
                         for st_ in cyc:
                             if st_.seq0 <= oks[-1].seq0 and (st_.seq1 is None or st_.seq1 >= oks[0].seq0) \
